@@ -1,7 +1,7 @@
 import StoneVerif.Lemmas.FeCompileLegalEnv
 set_option linter.unusedSimpArgs false
 /-!
-`_resolve_type` of the compile model against the specification-level reading of a reference, both ways: it succeeds
+`_resolve_type` of the compileCore model against the specification-level reading of a reference, both ways: it succeeds
 exactly on the references that are well formed (`refStatic`) and whose `?` stand on something that is not nullable /
 Void as far as the aliases set at that moment show.
 -/
